@@ -114,7 +114,7 @@ contract(GL + 'optimize_markov_random_fields', props=['C14', 'C20', 'C13', 'C12'
          requires=["wf(model)", "model.arguments.window_size >= 1", "model.arguments.sparsity_weight >= 0",
                    "stacked_training_data.shape[1] >= 1", "stacked_training_data.shape[1] < 67108864",
                    # W divides the number of stacked columns (N*W columns by construction of the stacking)
-                   "exists(lambda n: n >= 1 and stacked_training_data.shape[1] == n * model.arguments.window_size)",
+                   "stacked_ok(stacked_training_data, model.arguments.window_size)",
                    "forall(0, len(model.clusters), lambda k: not isnone(model.clusters[k].empirical_covariance) and "
                    "model.clusters[k].empirical_covariance.shape[0] == stacked_training_data.shape[1] and "
                    "model.clusters[k].empirical_covariance.shape[1] == stacked_training_data.shape[1])",
